@@ -160,6 +160,9 @@ def make_state(it, w, prefix="s"):
         "abort_if": w.abort_if, "start_mono": freal("start_mono"),
     })
     install_fresh(it, st, prefix)
+    from pyvc.harness import adopt_unknown_fields
+    adopt_unknown_fields(it, st, ci, {"policy": w.policy, "on_metric": None, "on_log": None, "operation": None, "abort_if": None},
+                         set(st.fields))
     w.state = st
     return st
 
